@@ -20,7 +20,7 @@ RULE = (
 REQUIRED = [
     "class.EncodedSequence", "class.StripedSequence", "class.CountMatrix", "class.WeightMatrix", "class.ScoringMatrix",
     "class.ScoreDistribution", "class.StripedScores", "alphabet.protein", "index.negative", "index.out_of_range",
-    "index.huge", "index.row_modified_then_reread", "constructor.partial_dict", "view.elements_checked", "view.empty_object", "view.rows<K", "view.after_calculate",
+    "index.huge", "index.row_modified_then_reread", "constructor.partial_dict", "class.long_text>2^20", "view.elements_checked", "view.empty_object", "view.rows<K", "view.after_calculate",
     "view.copy_of_scored", "view.copy_scored_again", "scores.L=M", "view.taken_before_reuse", "view.realloc_expected", "scores.L<M",
 ]
 
@@ -343,6 +343,60 @@ def check_row_independence(rep, case, cls, obj, wit):
         rep.violate("c18.index.row_aliases_earlier_result", case, "%s: re-reading a row after modifying the earlier result raised %r" % (cls, e), wit)
 
 
+def family_long_text(rep, case, rng):
+    """more than 2**20 symbols: the tail, the head and the seams of any internal chunking must show
+    the symbols of the text (indexing, str, buffer view, striped view)"""
+    protein = rng.random() < 0.3
+    alphabet = PROTEIN if protein else DNA
+    k = len(alphabet)
+    length = 2 ** 20 + rng.randint(1, 70000)
+    text = "".join(rng.choices(alphabet[:-1], k=length))
+    wit = dict(protein=protein, length=length)
+    ok, enc = call(rep, case, "EncodedSequence(long)", lambda: lightmotif.EncodedSequence(text, protein=protein), wit)
+    if not ok:
+        rep.violate("c18.setup", case, "EncodedSequence of %d symbols raised %r" % (length, enc), wit)
+        return
+    rep.cover("class.long_text>2^20")
+    rep.eval()
+    if len(enc) != length:
+        rep.violate("c18.len", case, "len = %r for a text of %d symbols" % (len(enc), length), wit)
+        return
+    probes = sorted(set([0, 1, 2 ** 20 - 1, 2 ** 20, 2 ** 20 + 1, length - 1, length - 2, length // 2] + [rng.randrange(length) for _ in range(200)] + list(range(length - 300, length))))
+    for i in probes:
+        rep.eval()
+        ok, v = call(rep, case, "EncodedSequence[%d]" % i, lambda: enc[i], wit)
+        if not ok or v != alphabet.index(text[i]):
+            rep.violate("c18.index.value", case, "EncodedSequence[%d] = %r in a text of %d symbols, logical element %r (%r)" % (i, v, length, alphabet.index(text[i]), text[i]), wit)
+            return
+    if enc[-1] != alphabet.index(text[-1]):
+        rep.violate("c18.index.value", case, "EncodedSequence[-1] = %r, the text ends in %r" % (enc[-1], text[-1]), wit)
+        return
+    ok, shown = call(rep, case, "str(EncodedSequence long)", lambda: str(enc), wit)
+    if not ok or shown != text:
+        rep.violate("c18.str", case, "str(EncodedSequence) of a %d-symbol text differs from the text%s" % (length, "" if not ok or len(shown) != length else " (first difference at %d)" % next(i for i in range(length) if shown[i] != text[i])), wit)
+        return
+    ok, mv = call(rep, case, "memoryview(EncodedSequence long)", lambda: memoryview(enc), wit)
+    if ok:
+        raw = bytes(mv)
+        want = bytes(alphabet.index(c) for c in text[-5000:])
+        if len(raw) != length or raw[-5000:] != want or raw[:100] != bytes(alphabet.index(c) for c in text[:100]):
+            rep.violate("c18.view.element", case, "buffer view of a %d-symbol EncodedSequence does not show the symbols of the text (head / tail)" % length, wit)
+            return
+        rep.cover("view.elements_checked", 5100)
+    ok, st = call(rep, case, "stripe(long)", lambda: enc.stripe(), wit)
+    if ok:
+        rows = (length + 31) // 32
+        ok2, mv2 = call(rep, case, "memoryview(StripedSequence long)", lambda: memoryview(st), wit)
+        if ok2 and mv2.shape == (32, rows):
+            for i in probes:
+                c, r = divmod(i, rows)
+                if mv2[c, r] != alphabet.index(text[i]):
+                    rep.violate("c18.view.element", case, "striped view [%d, %d] = %r, position %d of the text is %r" % (c, r, mv2[c, r], i, text[i]), wit)
+                    return
+        elif ok2:
+            rep.violate("c18.view.shape", case, "striped view shape %r, expected %r" % (mv2.shape, (32, rows)), wit)
+
+
 def family_matrices(rep, case, rng):
     protein = rng.random() < 0.3
     alphabet = PROTEIN if protein else DNA
@@ -440,6 +494,8 @@ def main():
     for case in cases:
         rng = case_rng(seed, "C18", case)
         try:
+            if (case == 0 or case % 256 == 200) and not os.environ.get("LMVERIF_VALGRIND"):
+                family_long_text(rep, case, rng)
             if case % 2 == 0:
                 family_sequences(rep, case, rng)
             else:
